@@ -18,30 +18,30 @@ import (
 )
 
 type harnessSpec struct {
-	Fn            string         `json:"fn"`
-	Pkg           string         `json:"pkg"` // relative package dir, "" = root
-	Quick         map[string]int `json:"quick"`
-	Thorough      map[string]int `json:"thorough"`
-	Budget        int64          `json:"budget"`
-	RequireCovers []string       `json:"require_covers"`
-	MapOrder      string         `json:"map_order"`
-	SkipQuick     bool           `json:"skip_quick"`
-	Note          string         `json:"note"`
-	MaxPaths      int64          `json:"max_paths"`
-	HangMs        int            `json:"hang_ms"`
-	Race          bool           `json:"race"`
-	TryWitnesses  int            `json:"try_witnesses"`
-	Redirects     map[string]string `json:"redirects"`    // full SSA function name -> harness function (same package as the harness)
-	SpuriousOK    bool           `json:"spurious_ok"`  // counterexamples that do not reproduce natively are counted as spurious (over-approximating harness)
+	Fn            string            `json:"fn"`
+	Pkg           string            `json:"pkg"` // relative package dir, "" = root
+	Quick         map[string]int    `json:"quick"`
+	Thorough      map[string]int    `json:"thorough"`
+	Budget        int64             `json:"budget"`
+	RequireCovers []string          `json:"require_covers"`
+	MapOrder      string            `json:"map_order"`
+	SkipQuick     bool              `json:"skip_quick"`
+	Note          string            `json:"note"`
+	MaxPaths      int64             `json:"max_paths"`
+	HangMs        int               `json:"hang_ms"`
+	Race          bool              `json:"race"`
+	TryWitnesses  int               `json:"try_witnesses"`
+	Redirects     map[string]string `json:"redirects"`   // full SSA function name -> harness function (same package as the harness)
+	SpuriousOK    bool              `json:"spurious_ok"` // counterexamples that do not reproduce natively are counted as spurious (over-approximating harness)
 }
 
 type checkSpec struct {
-	Title      string        `json:"title"`
-	Harnesses  []harnessSpec `json:"harnesses"`
-	Bounds     string        `json:"bounds"`
-	Outside    string        `json:"outside"`
-	Stubs      []string      `json:"stubs"`
-	Technique  string        `json:"technique"`
+	Title     string        `json:"title"`
+	Harnesses []harnessSpec `json:"harnesses"`
+	Bounds    string        `json:"bounds"`
+	Outside   string        `json:"outside"`
+	Stubs     []string      `json:"stubs"`
+	Technique string        `json:"technique"`
 }
 
 type knownFinding struct {
